@@ -375,3 +375,76 @@ def vacuity_check(g, tag="std"):
                         hit.add(f["name"])
     vacuous = [n for n in probed if n not in hit]
     return vacuous, len(probed), r
+
+
+# ---------------------------------------------------------------- must-panic variants (C05, C12)
+
+UNCHECKED = {"NodeId::append": "checked_append", "NodeId::prepend": "checked_prepend",
+             "NodeId::insert_after": "checked_insert_after", "NodeId::insert_before": "checked_insert_before"}
+UNTOUCHED = ("arena.nodes@ == old(arena).nodes@ && arena.first_free_slot == old(arena).first_free_slot "
+             "&& arena.last_free_slot == old(arena).last_free_slot")
+
+
+def mustpanic_variant(gen_text, gi):
+    """Derive, mechanically, the `requires not-possible / ensures false` form of the four unchecked
+    inserts and of append_value.  Returns (text, derived_function_names, problems)."""
+    edits = []
+    derived, problems = [], []
+    for f in gi.funcs:
+        name = f["name"]
+        if name in UNCHECKED or name == "NodeId::append_value":
+            t = f["text"]
+            off = gen_text.find(t)
+            if off < 0 or gen_text.count(t) != 1:
+                problems.append("%s: cannot locate function text" % name)
+                continue
+            head_end = t.index("{", t.index("ensures")) if False else None
+            m = re.search(r"\n(\s*)ensures\n", t)
+            body_brace = f["body_off"] - off - 1  # index of `{` within t
+            if not m:
+                problems.append("%s: no ensures section" % name)
+                continue
+            header = t[:m.start()] + "\n" + m.group(1) + "ensures\n" + m.group(1) + "    false,\n" + m.group(1).replace("    ", "", 1)
+            body = t[body_brace:]
+            if name in UNCHECKED:
+                if "!insert_impossible(" not in header:
+                    problems.append("%s: success precondition not found" % name)
+                    continue
+                header = header.replace("!insert_impossible(", "insert_impossible(", 1)
+                mm = re.match(r"\{\s*(self\s*\.\s*%s\(.*?\))\s*\.expect\((\".*?\")\);\s*\}\s*$" % UNCHECKED[name], body, re.S)
+                if not mm:
+                    problems.append("%s: body is no longer `self.%s(..).expect(..);`" % (name, UNCHECKED[name]))
+                    continue
+                nb = ("{\n        let __vx_t = %s;\n        proof {\n            assert(__vx_t is Err ==> (%s));\n        }\n"
+                      "        expect_mp(__vx_t);\n    }" % (mm.group(1), UNTOUCHED))
+            else:
+                if "!old(arena).at(self).stamp.removed()," not in header:
+                    problems.append("%s: success precondition not found" % name)
+                    continue
+                header = header.replace("!old(arena).at(self).stamp.removed(),", "old(arena).at(self).stamp.removed(),", 1)
+                # every assert! of the body may be the refusing one: each becomes "arena untouched here, and
+                # execution continues only if the condition holds"; with no assert! at all `ensures false` fails
+                nb = re.sub(r"(?<![\w!])assert!\(", "proof {\n            assert(%s);\n        }\n        assert_mp!(" % UNTOUCHED, body)
+            edits.append((off, off + len(t), header + nb))
+            derived.append(name)
+    out, pos = [], 0
+    for a, b, r in sorted(edits):
+        out.append(gen_text[pos:a])
+        out.append(r)
+        pos = b
+    out.append(gen_text[pos:])
+    text = "".join(out)
+    text = text.replace("macro_rules! unreachable {", "macro_rules! assert_mp { ($c:expr $(, $($rest:tt)*)?) => { vassert_mp($c) } }\nmacro_rules! unreachable {", 1)
+    return text, derived, problems
+
+
+def mustpanic_check(g, tag="std"):
+    gi = GenIndex(g["gen_text"])
+    text, derived, problems = mustpanic_variant(g["gen_text"], gi)
+    vp = os.path.join(BUILD, tag, "indextree_vx_mustpanic.rs")
+    open(vp, "w").write(text)
+    r = run_verus(vp, text, label="mustpanic")
+    vgi = GenIndex(text)
+    fails, tools, res = obligations_from(r, vgi)
+    return {"derived": derived, "problems": problems, "fails": [x for x in fails if x["function"] in derived],
+            "tools": tools, "res": [x for x in res if x["function"] in derived], "result": r, "path": vp}
